@@ -245,6 +245,21 @@ Definition cpp_enc_case (e : endian) (t : ty) (v : value) (obs : bytes) : list Z
   else if negb (beq obs (cpp_encode e t v)) then [92; len (cpp_encode e t v)]
   else [].
 
+(* C09: the generated raw swap run by the model on the same foreign-endian bytes followed by the
+   check's 64 guard bytes (0xA5), on a little-endian host: the buffer, the returned offset and
+   whether the guard is intact must agree with what the compiled code did. *)
+From Prophy Require Import CppSwap.
+Definition cpp_swap_case (t : ty) (foreign obs : bytes) (obs_ret : Z) (obs_guard_ok : bool) : list Z :=
+  let guard := repeat 165 64%nat in
+  match cpp_swap LE t (foreign ++ guard) 0 with
+  | None => [94]
+  | Some (d, r) =>
+      let msg := firstn (length foreign) d in
+      let g := skipn (length foreign) d in
+      if beq msg obs && (r =? obs_ret) && Bool.eqb (beq g guard) obs_guard_ok then []
+      else [95; r; b2z (beq msg obs); b2z (beq g guard)]
+  end.
+
 From Prophy Require Import ApiSpec.
 
 (* C10 / C11: a history of API operations on two fresh messages; obs = per step
